@@ -96,6 +96,9 @@ func newCtx(c *Case, res *Result) *ctx {
 	// line table
 	for i, lo := range res.Lines {
 		li := lineInfo{idx: i, maxWidth: lo.MaxWidth}
+		if li.maxWidth > 1<<24 {
+			li.maxWidth = 1 << 24 // "do not wrap" widths: wider than any paragraph of the workload, and safe in 26.6
+		}
 		for k := range lo.Runs {
 			r := lo.Runs[k]
 			if isTruncator(r) {
